@@ -100,7 +100,7 @@ def r_C27d(root):
     return inst, out
 def r_C28cd(root):
     out = []; inst = 0
-    t = load(root, M); drv = find(t, "parse_tree_to_objgraph"); fi = sem.info(drv)
+    t = load(root, M); drv = find_i(root, M, "parse_tree_to_objgraph"); fi = sem.info(drv)
     # ---- C28.c
     for r in [n for n in own_nodes(drv) if isinstance(n, ast.Raise) and isinstance(n.exc, ast.Call)]:
         kw = {k.arg: k.value for k in r.exc.keywords if k.arg in ("line", "col", "filename")}
@@ -120,13 +120,13 @@ def r_C28cd(root):
         if not same:
             out.append(Finding("C28", "C28.c", M, "parse_tree_to_objgraph", " ".join(ast.unparse(r).split())[:100], "line/col and filename of this error are assigned at different loop levels: the file name of the last model is combined with the line and column of a reference in another model", witness="main file with a never-resolving reference importing an error-free file"))
     # ---- C28.d
-    ro = find(t, "ReferenceResolver.resolve_one_step"); fr = sem.info(ro)
+    ro = find_i(root, M, "ReferenceResolver.resolve_one_step"); fr = sem.info(ro)
     hs = [h for n in ast.walk(ro) if isinstance(n, ast.Try) for h in n.handlers if h.name and h.type is not None and "TextXError" in ast.unparse(h.type)]
     for h in hs:
         fills = [n for n in ast.walk(ast.Module(body=h.body, type_ignores=[])) if isinstance(n, ast.Assign) and any(isinstance(x, ast.Attribute) and isinstance(x.value, ast.Name) and x.value.id == h.name and x.attr in ("line", "col", "filename") for tg in n.targets for x in ast.walk(tg))]
         for a in fills:
             inst += 1
-            guarded = any(pol and (h.name + ".") in ast.unparse(g) and "is None" in ast.unparse(g) for g, pol in fr.guards(a))
+            guarded = any(pol and a_.startswith(h.name + ".") and a_.endswith(" is None") for a_, pol in fr.atoms_at(a))
             ob("C28", "C28.d", M, "ReferenceResolver.resolve_one_step", " ".join(ast.unparse(a).split())[:80], guarded)
             if not guarded:
                 out.append(Finding("C28", "C28.d", M, "ReferenceResolver.resolve_one_step", " ".join(ast.unparse(a).split())[:90], "the location of every textX error coming out of a scope provider is overwritten with the location of the reference: an error raised while the provider loads another model (syntax error in that file) is reported in the referencing file", witness="a scope provider that loads a broken file lazily inside __call__"))
